@@ -7,6 +7,8 @@ package props
 
 import (
 	"fmt"
+	outline_prometheus "github.com/Jigsaw-Code/outline-ss-server/prometheus"
+	"github.com/prometheus/client_golang/prometheus"
 	"testing"
 
 	"verif/harness/kit"
@@ -23,6 +25,17 @@ func runUDP(c UCase, info *kit.Info, nat, metrics bool) *kit.Finding {
 		return nil
 	}
 	w.checkNAT = nat
+	var reg *prometheus.Registry
+	if metrics {
+		// the real Prometheus collector sits behind the recorder: what it exports must add up to the same calls
+		real, err := outline_prometheus.NewServiceMetrics(nil)
+		if err != nil {
+			return kit.Violation("udpmetrics:setup", "%v", err)
+		}
+		reg = prometheus.NewPedanticRegistry()
+		reg.MustRegister(real)
+		w.met.Inner = real
+	}
 	if f := w.run(); f != nil {
 		return f
 	}
@@ -60,7 +73,83 @@ func runUDP(c UCase, info *kit.Info, nat, metrics bool) *kit.Finding {
 		return f
 	}
 	if metrics && !w.aborted {
-		return checkUDPMetrics(w, info)
+		if f := checkUDPMetrics(w, info); f != nil || info.Inconclusive != "" {
+			return f
+		}
+	}
+	if metrics {
+		return checkUDPCollector(w, reg)
+	}
+	return nil
+}
+
+// checkUDPCollector compares what the real collector exports with the recorded calls (which checkUDPMetrics has
+// compared with the datagrams observed on the sockets): association counters, bytes per key and direction,
+// client datagrams per status.
+func checkUDPCollector(w *uWorld, reg *prometheus.Registry) *kit.Finding {
+	wantBytes := map[string]float64{}
+	wantStatus := map[string]float64{}
+	var added, removed float64
+	for _, r := range w.met.UDPAssocs() {
+		added++
+		removed += float64(r.Removed())
+		for _, e := range r.Events() {
+			switch e.Kind {
+			case "fromClient":
+				wantBytes["c>p|"+r.Key] += float64(e.A)
+				wantBytes["p>t|"+r.Key] += float64(e.B)
+				wantStatus[e.Status]++
+			case "fromTarget":
+				wantBytes["p<t|"+r.Key] += float64(e.A)
+				wantBytes["c<p|"+r.Key] += float64(e.B)
+			}
+		}
+	}
+	mfs, err := reg.Gather()
+	if err != nil {
+		return kit.Violation("udpmetrics:gather", "%v", err)
+	}
+	gotBytes := map[string]float64{}
+	gotStatus := map[string]float64{}
+	var gotAdded, gotRemoved float64
+	for _, mf := range mfs {
+		for _, m := range mf.GetMetric() {
+			l := map[string]string{}
+			for _, lp := range m.GetLabel() {
+				l[lp.GetName()] = lp.GetValue()
+			}
+			v := m.GetCounter().GetValue()
+			switch mf.GetName() {
+			case "udp_nat_entries_added":
+				gotAdded += v
+			case "udp_nat_entries_removed":
+				gotRemoved += v
+			case "data_bytes":
+				if l["proto"] == "udp" {
+					gotBytes[l["dir"]+"|"+l["access_key"]] += v
+				}
+			case "udp_packets_from_client_per_location":
+				gotStatus[l["status"]] += v
+			}
+		}
+	}
+	if gotAdded != added || gotRemoved != removed {
+		return kit.Violation("udpmetrics:collector-assocs", "udp_nat_entries_added/removed = %v/%v, the call log has %v additions and %v removals", gotAdded, gotRemoved, added, removed)
+	}
+	for k, v := range wantBytes {
+		if gotBytes[k] != v {
+			return kit.Violation("udpmetrics:collector-bytes", "data_bytes{proto=udp,%s} = %v, the reported datagrams add up to %v", k, gotBytes[k], v)
+		}
+	}
+	for k, v := range gotBytes {
+		if wantBytes[k] != v {
+			return kit.Violation("udpmetrics:collector-bytes", "data_bytes{proto=udp,%s} = %v, the reported datagrams add up to %v", k, v, wantBytes[k])
+		}
+	}
+	for k, v := range wantStatus {
+		if gotStatus[k] != v {
+			return kit.Violation("udpmetrics:collector-status", "udp_packets_from_client_per_location{status=%s} = %v, %v client datagrams were reported with that status", k, gotStatus[k], v)
+		}
 	}
 	return nil
 }
